@@ -31,7 +31,9 @@ Asc(lo, n) == IF n = 0 THEN {<<>>}
                             a \in {x \in FwdAtoms : x.a >= lo}}
 \* the quantifier's '+' lists are ascending; the scanner also accepts the same operands in any order
 \* (the denotation is a union), which is checked as an extension
-Reorder(its) == {[i \in 1..Len(its) |-> its[p[i]]] : p \in Permutations(1..Len(its))}
+\* (every order of two operands; of three operands the written order, its reverse and one rotation)
+Reorder(its) == LET n == Len(its) IN
+                  {its, [i \in 1..n |-> its[n + 1 - i]], [i \in 1..n |-> its[(i % n) + 1]]}
 PlusLists == UNION {UNION {{Mk("plus", 0, 0, r) : r \in Reorder(its)} : its \in Asc(0, n)} : n \in 2..MaxItems}
 Scans == {Mk("all", 0, 0, <<>>)} \cup {Mk("from", a, 0, <<>>) : a \in B} \cup Atoms
          \cup PlusLists
